@@ -201,7 +201,8 @@ PROPS = {
     },
     "C14": {
         "title": "type-level safety",
-        "rules": [r_type.rule_type, r_type.rule_surface, r_type.rule_wit_for("C14")],
+        "rules": [r_type.rule_type, r_type.rule_surface, r_type.rule_wit_for("C14"),
+                  r_own.rule_view],
         "explanation": "TYPE: for each of the unsafe impl Send/Sync, each field (looking through UnsafeCell/ManuallyDrop/raw "
                        "pointers) is Send/Sync under the impl's own predicates, asked of the compiler's trait solver; supertrait "
                        "and Item bounds of the public traits; SURFACE: no safe public function lets the caller choose the "
